@@ -509,23 +509,27 @@ fn run_loader(rd: &Rendering, dir: &Path, empty_toml: &Path) -> Outcome {
         Ok(cfg) => cfg.validate().map(|_| cfg),
         Err(e) => Err(e),
     };
-    // fidelity of the rendering: effective values, read without validation
-    let eff_src = path.clone().unwrap_or_else(|| empty_toml.to_path_buf());
-    let eff = KyroDbConfig::from_file(eff_src.to_str().unwrap());
-    clear_kyrodb_env();
-    let (effective, faithful) = match (&res, &eff) {
-        (Ok(c), _) => {
+    // fidelity of the rendering: the effective values (read without validation when the
+    // load was refused) must project onto exactly the row that was rendered
+    let (effective, faithful) = match &res {
+        Ok(c) => {
             let p = project(c);
             let f = p == rd.expected;
             (p, f)
         }
-        (Err(_), Ok(c)) => {
-            let p = project(c);
-            let f = p == rd.expected;
-            (p, f)
+        Err(_) => {
+            let eff_src = path.clone().unwrap_or_else(|| empty_toml.to_path_buf());
+            match KyroDbConfig::from_file(eff_src.to_str().unwrap()) {
+                Ok(c) => {
+                    let p = project(&c);
+                    let f = p == rd.expected;
+                    (p, f)
+                }
+                Err(e) => (json!({"unreadable": format!("{:#}", e)}), false),
+            }
         }
-        (Err(_), Err(e)) => (json!({"unreadable": format!("{:#}", e)}), false),
     };
+    clear_kyrodb_env();
     match res {
         Ok(_) => Outcome { accepted: true, err: String::new(), faithful, effective },
         Err(e) => {
@@ -631,6 +635,7 @@ fn main() -> anyhow::Result<()> {
         let r = row_of(&rec["row"]);
         let mut outs = Vec::new();
         let mut dets = Vec::new();
+        let mut derived: Vec<(&'static str, Value)> = Vec::new();
         for fmt in formats.iter().copied() {
             let rd = render(&r, fmt, seed, pass, i, &anc, &defaults, plain);
             let o = run_loader(&rd, &dir, &empty_toml);
@@ -640,6 +645,12 @@ fn main() -> anyhow::Result<()> {
             let outcome = if o.accepted { "accepted" } else { "rejected" };
             outs.push(json!({"fmt": rd.fmt, "outcome": outcome, "faithful": o.faithful}));
             let mut d = json!({"fmt": rd.fmt, "outcome": outcome, "err": o.err, "note": rd.note});
+            if o.accepted && !o.faithful {
+                let mut eff = o.effective.clone();
+                let canon = eff["env"].as_str().unwrap_or("").trim().to_ascii_lowercase();
+                eff["env"] = Value::String(canon);
+                derived.push((rd.fmt, eff));
+            }
             if !o.faithful {
                 d["effective"] = o.effective;
                 d["expected"] = rd.expected.clone();
@@ -648,6 +659,15 @@ fn main() -> anyhow::Result<()> {
         }
         out.emit(&json!({"i": i, "row": rec["row"], "outs": outs}));
         det.emit(&json!({"i": i, "outs": dets}));
+        // A rendering that was accepted with other effective values than intended says nothing
+        // about the intended row (ConfigTrace skips unfaithful outcomes); what was accepted is
+        // the effective configuration, so that is judged instead (environment name in the
+        // canonical spelling of the property: trimmed, lower case).
+        for (fmt, eff) in derived {
+            out.emit(&json!({"i": i, "derived": true, "row": eff,
+                             "outs": [{"fmt": fmt, "outcome": "accepted", "faithful": true}]}));
+            det.emit(&json!({"i": i, "derived": true, "outs": []}));
+        }
     }
     out.finish();
     det.finish();
